@@ -2,32 +2,42 @@ package main
 
 // C15 — Gzip / Decompress are transparent.
 //
-// Real code: middleware.GzipWithConfig and middleware.Decompress installed with e.Use, driven
-// through e.ServeHTTP; handlers act through c.Response().WriteHeader/Write/Flush and c.Stream.
-// Model: lean/EchoModel/C15.lean (serveAll, decompressAll).
+// Real code: middleware.Gzip / GzipWithConfig and middleware.Decompress / DecompressWithConfig
+// installed with e.Use, driven through e.ServeHTTP (a recording writer, optionally with
+// io.ReaderFrom / Pusher / Hijacker; for a few cases a real server over TCP); handlers act through
+// c.Response().WriteHeader/Write/Flush/Hijack, c.Stream, http.ResponseController, and may return an error.
+// Model: lean/EchoModel/C15.lean (serveNestedAllX, decompressSeqX).
 // Oracle (model-free): the client side undoes the advertised Content-Encoding with
 // compress/gzip and compares with what the handler wrote; Write counts; status; headers.
 
 import (
+	"bufio"
 	"bytes"
 	"compress/gzip"
 	"context"
+	"errors"
 	"fmt"
 	"io"
 	"math/rand"
+	"net"
 	"net/http"
 	"net/http/httptest"
 	"runtime/debug"
 	"strconv"
 	"strings"
 	"sync"
+	"time"
 
 	"github.com/labstack/echo/v4"
 	"github.com/labstack/echo/v4/middleware"
 )
 
 type c15Op struct {
-	K      string   `json:"k"`                // L setLen | H writeHeader | W write | F flush | S stream(chunk reader) | T stream(strings.Reader)
+	// L setLen | H writeHeader | W write | F flush | S stream(chunk reader) | T stream(strings.Reader);
+	// not part of the model's program (they must not change the response, and must reach the
+	// underlying writer exactly as without the middleware): P res.Writer.(http.Pusher).Push |
+	// J res.Hijack() | D http.NewResponseController(res).SetWriteDeadline
+	K      string   `json:"k"`
 	Code   int      `json:"code,omitempty"`   // H, S, T
 	N      int      `json:"n,omitempty"`      // L
 	Data   a2bstr   `json:"data,omitempty"`   // W, T
@@ -42,6 +52,9 @@ type c15Req struct {
 	NestAt int     `json:"nest_at,omitempty"` //
 	AE     string  `json:"accept_encoding"`
 	Ops    []c15Op `json:"ops"`
+	Skip   bool    `json:"skip,omitempty"`      // the request carries the header the case's Skipper looks for
+	Preset bool    `json:"preset_ce,omitempty"` // the handler sets Content-Encoding: gzip itself, first thing
+	Fail   int     `json:"fail,omitempty"`      // the handler returns echo.NewHTTPError(Fail) after its ops
 }
 
 type c15DReq struct {
@@ -53,6 +66,9 @@ type c15DReq struct {
 	// the handler reads NestAfter bytes of its body, serves Nested through the same Echo, then reads the rest
 	Nested    *c15DReq `json:"nested,omitempty"`
 	NestAfter int      `json:"nest_after,omitempty"`
+	Skip      bool     `json:"skip,omitempty"`    // the request carries the header the case's Skipper looks for
+	Unknown   bool     `json:"unknown,omitempty"` // the length of the body is not known up front (chunked upload): ContentLength -1
+	Chunk     int      `json:"chunk,omitempty"`   // the body arrives in pieces of at most this many bytes (0: as one piece)
 }
 
 type c15Case struct {
@@ -66,6 +82,11 @@ type c15Case struct {
 	Once  bool      `json:"once,omitempty"`
 	Reqs  []c15Req  `json:"reqs,omitempty"`
 	DReqs []c15DReq `json:"dreqs,omitempty"`
+	// round 4
+	Ctor    string `json:"ctor,omitempty"`    // gzip: "" GzipWithConfig{MinLength, Level} | plain Gzip(); decompress: "" Decompress() | cfg0 DecompressWithConfig{} | cfgpool {GzipDecompressPool: &DefaultGzipDecompressPool{}}
+	Skipper bool   `json:"skipper,omitempty"` // the config carries a Skipper (requests with X-Skip: 1 are skipped)
+	Base    string `json:"base,omitempty"`    // the underlying http.ResponseWriter: "" minimal (+Flush) | rf also io.ReaderFrom | full also Pusher, Hijacker, SetWriteDeadline
+	Wire    string `json:"wire,omitempty"`    // "" in-process with a recording writer | tcp a real net/http server and client (oracle only)
 }
 
 // ---------- the recording response writer (net/http's rule: the first WriteHeader wins, a
@@ -78,6 +99,10 @@ type c15Raw struct {
 	sent      http.Header
 	body      []byte
 	flushAt   []int
+	readFroms int
+	pushes    []string
+	hijacks   int
+	deadlines int
 }
 
 func newC15Raw() *c15Raw { return &c15Raw{hdr: http.Header{}} }
@@ -97,6 +122,46 @@ func (r *c15Raw) Write(b []byte) (int, error) {
 func (r *c15Raw) Flush() {
 	r.WriteHeader(http.StatusOK)
 	r.flushAt = append(r.flushAt, len(r.body))
+}
+
+// the same recorder with the optional interfaces a real connection's writer has.  ReadFrom has
+// net/http's contract: it is a Write of everything the source yields.
+type c15RawRF struct{ *c15Raw }
+
+func (w c15RawRF) ReadFrom(src io.Reader) (int64, error) {
+	w.readFroms++
+	return io.Copy(struct{ io.Writer }{w.c15Raw}, src)
+}
+
+type c15RawFull struct{ *c15Raw }
+
+var errC15Hijack = errors.New("c15: the recorder's Hijack was reached")
+
+func (w c15RawFull) ReadFrom(src io.Reader) (int64, error) {
+	w.readFroms++
+	return io.Copy(struct{ io.Writer }{w.c15Raw}, src)
+}
+func (w c15RawFull) Push(target string, opts *http.PushOptions) error {
+	w.pushes = append(w.pushes, target)
+	return nil
+}
+func (w c15RawFull) Hijack() (net.Conn, *bufio.ReadWriter, error) {
+	w.hijacks++
+	return nil, nil, errC15Hijack
+}
+func (w c15RawFull) SetWriteDeadline(t time.Time) error {
+	w.deadlines++
+	return nil
+}
+
+func (r *c15Raw) as(base string) http.ResponseWriter {
+	switch base {
+	case "rf":
+		return c15RawRF{r}
+	case "full":
+		return c15RawFull{r}
+	}
+	return r
 }
 
 // ---------- reading the wire ----------
@@ -163,6 +228,12 @@ type c15Trace struct {
 	flushed  [][]byte // bytes written before each Flush
 	nestAt   int      // serve the nested request before this op …
 	sub      func()   // … by calling this (nil: no nested request)
+	ran      bool     // the handler ran
+	started  bool     // the handler started the response (some op other than setting a header)
+	base     string   // which optional interfaces the underlying writer has
+	raw      *c15Raw  // the underlying recorder (nil in tcp mode)
+	iface    string   // first optional-interface call that did not behave as on the underlying writer
+	tcp      bool     // real connection: the interface ops are left out
 }
 
 func c15RunOps(ctx echo.Context, ops []c15Op, tr *c15Trace) {
@@ -185,11 +256,62 @@ func c15RunOps(ctx echo.Context, ops []c15Op, tr *c15Trace) {
 		}
 	}
 	defer nested() // NestAt beyond the last op
+	noteIface := func(f string, a ...any) {
+		if tr.iface == "" {
+			tr.iface = fmt.Sprintf(f, a...)
+		}
+	}
+	full := tr.base == "full"
 	for i, op := range ops {
 		if i == tr.nestAt {
 			nested()
 		}
 		switch op.K {
+		case "H", "W", "F", "S", "T":
+			tr.started = true
+		}
+		switch op.K {
+		case "P":
+			if tr.tcp {
+				break
+			}
+			// how handlers reach server push: a type assertion on the response's writer
+			p, ok := res.Writer.(http.Pusher)
+			var err error
+			if ok {
+				err = p.Push("/pushed", nil)
+			}
+			supported := ok && err == nil
+			if supported != full {
+				noteIface("op %d: Push: supported=%v (assertion ok=%v, err=%v) but the underlying writer is a Pusher: %v", i, supported, ok, err, full)
+			}
+			if ok && !full && !errors.Is(err, http.ErrNotSupported) {
+				noteIface("op %d: Push on a writer that cannot push: err=%v, want http.ErrNotSupported", i, err)
+			}
+		case "J":
+			if tr.tcp {
+				break
+			}
+			before := tr.raw.hijacks
+			_, _, err := res.Hijack()
+			switch {
+			case full && (err != errC15Hijack || tr.raw.hijacks != before+1):
+				noteIface("op %d: Hijack did not reach the underlying writer (err=%v)", i, err)
+			case !full && !errors.Is(err, http.ErrNotSupported):
+				noteIface("op %d: Hijack on a writer that cannot be hijacked: err=%v, want http.ErrNotSupported", i, err)
+			}
+		case "D":
+			if tr.tcp {
+				break
+			}
+			before := tr.raw.deadlines
+			err := http.NewResponseController(res).SetWriteDeadline(time.Time{})
+			switch {
+			case full && (err != nil || tr.raw.deadlines != before+1):
+				noteIface("op %d: ResponseController.SetWriteDeadline did not reach the underlying writer (err=%v)", i, err)
+			case !full && !errors.Is(err, http.ErrNotSupported):
+				noteIface("op %d: SetWriteDeadline on a writer without deadlines: err=%v, want http.ErrNotSupported", i, err)
+			}
 		case "L":
 			res.Header().Set(echo.HeaderContentLength, strconv.Itoa(op.N))
 			tr.rets = append(tr.rets, "-")
@@ -233,24 +355,42 @@ func c15RunOps(ctx echo.Context, ops []c15Op, tr *c15Trace) {
 				}
 			}()
 			sizes := append(rd.sizes, res.Size)
-			// chunk k was passed to Write between Read call k and Read call k+1
 			var counts []string
-			k := 0
+			total := 0
 			for _, c := range op.Chunks {
-				if len(c) == 0 {
-					continue
+				total += len(c)
+			}
+			if result == 0 && len(rd.sizes) > 0 && int(res.Size-rd.sizes[0]) == total {
+				// the helper reported success and the response has grown by exactly what the reader
+				// yielded: every chunk went through with its own length (how the copy was cut into
+				// Write calls - one per Read, or a ReadFrom fast path - is not the handler's business)
+				for _, c := range op.Chunks {
+					if len(c) == 0 {
+						continue
+					}
+					tr.anyWrite = true
+					tr.wrote = append(tr.wrote, c...)
+					counts = append(counts, wInt(len(c)))
 				}
-				if k+1 >= len(sizes) {
-					break // not delivered
-				}
-				n := int(sizes[k+1] - sizes[k])
-				tr.anyWrite = true
-				tr.wrote = append(tr.wrote, c...)
-				noteCount(n, []byte(c), fmt.Sprintf("op %d: Stream chunk %d", i, k))
-				counts = append(counts, wInt(n))
-				k++
-				if n != len(c) {
-					break
+			} else {
+				// something went wrong: chunk k was passed to Write between Read call k and Read call k+1
+				k := 0
+				for _, c := range op.Chunks {
+					if len(c) == 0 {
+						continue
+					}
+					if k+1 >= len(sizes) {
+						break // not delivered
+					}
+					n := int(sizes[k+1] - sizes[k])
+					tr.anyWrite = true
+					tr.wrote = append(tr.wrote, c...)
+					noteCount(n, []byte(c), fmt.Sprintf("op %d: Stream chunk %d", i, k))
+					counts = append(counts, wInt(n))
+					k++
+					if n != len(c) {
+						break
+					}
 				}
 			}
 			if result != 0 && tr.badCount == "" {
@@ -318,20 +458,31 @@ type c15Out struct {
 	nontr  bool
 }
 
+// c15Env: what the requests of one case share
+type c15Env struct {
+	e         *echo.Echo
+	minLength int  // the threshold the middleware works with (after its defaults)
+	skipper   bool // the config has a Skipper
+	levelOK   bool // gzip.NewWriterLevel accepts the level
+	base      string
+}
+
+func c15IsModelOp(op c15Op) bool { return op.K != "P" && op.K != "J" && op.K != "D" }
+
 // c15ServeGzip serves a request and, from inside its handler, the request nested in it;
 // results in pre-order (outer first).
-func c15ServeGzip(e *echo.Echo, minLength int, rq c15Req) []c15Out {
+func c15ServeGzip(env *c15Env, rq c15Req) []c15Out {
 	var inner []c15Out
 	var sub func()
 	if rq.Nested != nil {
 		n := *rq.Nested
 		n.Nested = nil
-		sub = func() { inner = c15ServeGzip(e, minLength, n) }
+		sub = func() { inner = c15ServeGzip(env, n) }
 	}
-	out := c15ServeGzip1(e, minLength, rq, sub)
+	out, ran := c15ServeGzip1(env, rq, sub)
 	if rq.Nested != nil {
 		out.tags = append(out.tags, "nested-request")
-		if len(inner) == 0 {
+		if ran && len(inner) == 0 {
 			inner = []c15Out{{obs: "not-served", oracle: "the nested request was not served"}}
 		}
 		for i := range inner {
@@ -343,7 +494,7 @@ func c15ServeGzip(e *echo.Echo, minLength int, rq c15Req) []c15Out {
 	return append([]c15Out{out}, inner...)
 }
 
-func c15ServeGzip1(e *echo.Echo, minLength int, rq c15Req, sub func()) (out c15Out) {
+func c15ServeGzip1(env *c15Env, rq c15Req, sub func()) (out c15Out, ran bool) {
 	defer func() {
 		if p := recover(); p != nil {
 			out.obs = "panic"
@@ -355,9 +506,12 @@ func c15ServeGzip1(e *echo.Echo, minLength int, rq c15Req, sub func()) (out c15O
 	if rq.AE != "" {
 		req.Header.Set(echo.HeaderAcceptEncoding, rq.AE)
 	}
-	tr := &c15Trace{nestAt: rq.NestAt, sub: sub}
-	req = req.WithContext(c15WithTrace(req.Context(), tr, rq.Ops))
-	e.ServeHTTP(raw, req)
+	if rq.Skip {
+		req.Header.Set("X-Skip", "1")
+	}
+	tr := &c15Trace{nestAt: rq.NestAt, sub: sub, base: env.base, raw: raw}
+	req = req.WithContext(c15WithTrace(req.Context(), tr, rq))
+	env.e.ServeHTTP(raw.as(env.base), req)
 	raw.WriteHeader(http.StatusOK) // what net/http does when the handler returns without writing
 
 	// ---- observation
@@ -383,85 +537,154 @@ func c15ServeGzip1(e *echo.Echo, minLength int, rq c15Req, sub func()) (out c15O
 	parts = append(parts, tr.rets...)
 	out.obs = strings.Join(parts, " ")
 
-	// ---- model-free oracle
+	w := c15Wire{status: raw.status, ce: ce, cl: cl, body: raw.body, flushAt: raw.flushAt, haveFlush: true}
+	c15JudgeGzip(env, rq, tr, w, &out)
+	if env.base != "" && raw.readFroms > 0 {
+		out.tags = append(out.tags, "base-writer:ReadFrom-reached")
+	}
+	return out, tr.ran
+}
+
+// c15Wire: what the client got
+type c15Wire struct {
+	status    int
+	ce, cl    string
+	body      []byte
+	flushAt   []int
+	haveFlush bool // flushAt is known (recording writer)
+}
+
+// c15JudgeGzip is the model-free oracle for one response, and the evidence tags.
+func c15JudgeGzip(env *c15Env, rq c15Req, tr *c15Trace, w c15Wire, out *c15Out) {
 	fail := func(f string, a ...any) {
 		if out.oracle == "" {
 			out.oracle = fmt.Sprintf(f, a...)
 		}
 	}
+	gz := strings.Contains(rq.AE, "gzip")
+	skipped := env.skipper && rq.Skip
+	active := gz && !skipped // the middleware wraps the writer
+	ce, cl := w.ce, w.cl
+	if active && !env.levelOK && !tr.ran {
+		// a compression level compress/gzip rejects: the property says nothing about a
+		// middleware that cannot be built; what happens (500, handler not run) is compared with
+		// the model only.  (Had the handler run, its response would be judged like any other.)
+		out.tags = append(out.tags, "ae:"+rq.AE, "invalid-level:handler-not-run")
+		return
+	}
+	if !tr.ran {
+		fail("the handler did not run")
+	}
 	if tr.badCount != "" {
 		fail("write count: %s", tr.badCount)
 	}
+	if tr.iface != "" {
+		fail("optional interface: %s", tr.iface)
+	}
+	// what the client is to get: the handler's bytes and status; if the handler returned an
+	// error without having started its response, the error handler's answer instead
 	chosen := tr.chosen
 	if chosen == 0 {
 		chosen = http.StatusOK
 	}
-	if raw.status != chosen {
-		fail("status on the wire %d, the handler chose %d", raw.status, chosen)
+	wantBody := tr.wrote
+	errorAnswer := rq.Fail != 0 && !tr.started
+	if errorAnswer {
+		chosen = rq.Fail
+		wantBody = []byte(fmt.Sprintf("E%d", rq.Fail))
 	}
-	decoded, isGz := raw.body, false
-	if d, err := c15Gunzip(raw.body); err == nil {
-		isGz = true
-		if ce == "gzip" {
-			decoded = d
+	if w.status != chosen {
+		fail("status on the wire %d, the handler chose %d", w.status, chosen)
+	}
+	// a handler that labels its own bytes as gzip is on its own as soon as it sends a body, or
+	// when the middleware is not in play; with the middleware in play and no body the header must go
+	lyingHandler := rq.Preset && (!active || tr.anyWrite || tr.anyFlush)
+	if !lyingHandler {
+		decoded, isGz := w.body, false
+		if d, err := c15Gunzip(w.body); err == nil {
+			isGz = true
+			if ce == "gzip" {
+				decoded = d
+			}
+		} else if ce == "gzip" {
+			fail("Content-Encoding: gzip but the body (%d bytes) is not a well-formed gzip stream: %v", len(w.body), err)
 		}
-	} else if ce == "gzip" {
-		fail("Content-Encoding: gzip but the body (%d bytes) is not a well-formed gzip stream: %v", len(raw.body), err)
-	}
-	if ce != "" && ce != "gzip" {
-		fail("unexpected Content-Encoding %q", ce)
-	}
-	if isGz && ce != "gzip" {
-		fail("the body is a gzip stream but Content-Encoding: gzip is missing")
-	}
-	if out.oracle == "" && !bytes.Equal(decoded, tr.wrote) {
-		fail("client recovers %d bytes %q, the handler wrote %d bytes %q", len(decoded), c15Clip(decoded), len(tr.wrote), c15Clip(tr.wrote))
+		if ce != "" && ce != "gzip" {
+			fail("unexpected Content-Encoding %q", ce)
+		}
+		if isGz && ce != "gzip" {
+			fail("the body is a gzip stream but Content-Encoding: gzip is missing")
+		}
+		if out.oracle == "" && !bytes.Equal(decoded, wantBody) {
+			fail("client recovers %d bytes %q, the handler wrote %d bytes %q", len(decoded), c15Clip(decoded), len(wantBody), c15Clip(wantBody))
+		}
+		if skipped && ce != "" {
+			fail("skipped request went out with Content-Encoding %q", ce)
+		}
 	}
 	// a length the handler announced truthfully must still be true on the wire (a handler that
 	// announces a wrong length is on its own)
-	honest := true
+	honest := !errorAnswer
 	for _, op := range rq.Ops {
 		if op.K == "L" && op.N != len(tr.wrote) {
 			honest = false
 		}
 	}
 	if cl != "" && honest {
-		if n, err := strconv.Atoi(cl); err != nil || n != len(raw.body) {
-			fail("Content-Length %q on the wire, body has %d bytes", cl, len(raw.body))
+		if n, err := strconv.Atoi(cl); err != nil || n != len(w.body) {
+			fail("Content-Length %q on the wire, body has %d bytes", cl, len(w.body))
 		}
 	}
-	if !tr.anyWrite && !tr.anyFlush && len(raw.body) != 0 {
-		fail("body-less response (no Write, no Flush) has %d bytes on the wire", len(raw.body))
+	if !tr.anyWrite && !tr.anyFlush && !errorAnswer && len(w.body) != 0 {
+		fail("body-less response (no Write, no Flush) has %d bytes on the wire", len(w.body))
 	}
-	for i, at := range raw.flushAt {
-		if i >= len(tr.flushed) {
-			break
-		}
-		got := raw.body[:at]
-		if ce == "gzip" {
-			// everything written before the Flush must be decodable from what is on the wire
-			got = nil
-			if zr, err := gzip.NewReader(bytes.NewReader(raw.body[:at])); err == nil {
-				got, _ = io.ReadAll(zr)
+	if w.haveFlush && !lyingHandler {
+		for i, at := range w.flushAt {
+			if i >= len(tr.flushed) {
+				break
 			}
-		}
-		if !bytes.Equal(got, tr.flushed[i]) {
-			fail("after Flush %d the client can read %d bytes, the handler had written %d", i, len(got), len(tr.flushed[i]))
+			got := w.body[:at]
+			if ce == "gzip" {
+				// everything written before the Flush must be decodable from what is on the wire
+				got = nil
+				if zr, err := gzip.NewReader(bytes.NewReader(w.body[:at])); err == nil {
+					got, _ = io.ReadAll(zr)
+				}
+			}
+			if !bytes.Equal(got, tr.flushed[i]) {
+				fail("after Flush %d the client can read %d bytes, the handler had written %d", i, len(got), len(tr.flushed[i]))
+			}
 		}
 	}
 
 	// ---- tags
-	gz := strings.Contains(rq.AE, "gzip")
+	minLength := env.minLength
 	out.tags = append(out.tags, "ae:"+rq.AE)
 	switch {
-	case len(raw.body) == 0:
+	case len(w.body) == 0:
 		out.tags = append(out.tags, "wire:empty")
 	case ce == "gzip":
 		out.tags = append(out.tags, "wire:gzip")
 	default:
 		out.tags = append(out.tags, "wire:identity")
 	}
-	if gz {
+	if skipped {
+		out.tags = append(out.tags, "skipped-by-Skipper")
+	}
+	if rq.Preset {
+		out.tags = append(out.tags, "handler-set-content-encoding")
+		if active && !tr.anyWrite && !tr.anyFlush {
+			out.tags = append(out.tags, "handler-set-content-encoding:body-less")
+		}
+	}
+	if rq.Fail != 0 {
+		if errorAnswer {
+			out.tags = append(out.tags, "handler-error:before-start(error handler answers)")
+		} else {
+			out.tags = append(out.tags, "handler-error:after-start")
+		}
+	}
+	if active {
 		// where did the switch to compression happen?
 		buffered, bodyOps, switched := 0, 0, ""
 		for _, op := range rq.Ops {
@@ -517,15 +740,20 @@ func c15ServeGzip1(e *echo.Echo, minLength int, rq c15Req, sub func()) (out c15O
 		}
 	}
 	for _, op := range rq.Ops {
-		if op.K == "S" || op.K == "T" {
+		switch op.K {
+		case "S", "T":
 			out.tags = append(out.tags, "stream")
-			break
+		case "P":
+			out.tags = append(out.tags, "iface:Push")
+		case "J":
+			out.tags = append(out.tags, "iface:Hijack")
+		case "D":
+			out.tags = append(out.tags, "iface:ResponseController(Unwrap)")
 		}
 	}
 	if len(rq.Ops) > 0 && rq.Ops[0].K == "L" {
 		out.tags = append(out.tags, "handler-set-content-length")
 	}
-	return out
 }
 
 func c15Clip(b []byte) string {
@@ -567,15 +795,15 @@ func c15DBody(d c15DReq) []byte {
 // c15ServeDecompress serves a request and, from inside its handler (between two of its body
 // reads), the request nested in it; results in pre-order.  The nested request is only there
 // when the outer handler ran.
-func c15ServeDecompress(e c15Server, d c15DReq) []c15Out {
+func c15ServeDecompress(e c15Server, skipper bool, d c15DReq) []c15Out {
 	var inner []c15Out
 	var sub func()
 	if d.Nested != nil {
 		n := *d.Nested
 		n.Nested = nil
-		sub = func() { inner = c15ServeDecompress(e, n) }
+		sub = func() { inner = c15ServeDecompress(e, skipper, n) }
 	}
-	out, ran := c15ServeDecompress1(e, d, sub)
+	out, ran := c15ServeDecompress1(e, skipper, d, sub)
 	if d.Nested != nil {
 		out.tags = append(out.tags, "nested-request")
 		if ran && len(inner) == 0 {
@@ -607,7 +835,28 @@ func (o c15Once) ServeHTTP(w http.ResponseWriter, r *http.Request) {
 	}
 }
 
-func c15ServeDecompress1(e c15Server, d c15DReq, sub func()) (out c15Out, ran bool) {
+// c15PieceReader hands out at most n bytes per Read (and hides the length of what it wraps)
+type c15PieceReader struct {
+	r io.Reader
+	n int
+}
+
+func (p *c15PieceReader) Read(b []byte) (int, error) {
+	if p.n > 0 && len(b) > p.n {
+		b = b[:p.n]
+	}
+	return p.r.Read(b)
+}
+
+// c15DRequestBody: the body as the server hands it to the handler chain
+func c15DRequestBody(d c15DReq, wire []byte) io.Reader {
+	if d.Unknown || d.Chunk > 0 {
+		return &c15PieceReader{bytes.NewReader(wire), d.Chunk}
+	}
+	return bytes.NewReader(wire)
+}
+
+func c15ServeDecompress1(e c15Server, skipper bool, d c15DReq, sub func()) (out c15Out, ran bool) {
 	defer func() {
 		if p := recover(); p != nil {
 			out.obs = "panic"
@@ -615,22 +864,36 @@ func c15ServeDecompress1(e c15Server, d c15DReq, sub func()) (out c15Out, ran bo
 		}
 	}()
 	wire := c15DBody(d)
-	req := httptest.NewRequest(http.MethodPost, "/", bytes.NewReader(wire))
+	req := httptest.NewRequest(http.MethodPost, "/", c15DRequestBody(d, wire))
+	if d.Unknown {
+		// what a server sets for a chunked upload
+		req.ContentLength = -1
+		req.TransferEncoding = []string{"chunked"}
+	} else {
+		req.ContentLength = int64(len(wire))
+	}
 	if d.CE != "" {
 		req.Header.Set(echo.HeaderContentEncoding, d.CE)
+	}
+	if d.Skip {
+		req.Header.Set("X-Skip", "1")
 	}
 	seen := &c15DSeen{nestAfter: d.NestAfter, sub: sub}
 	req = req.WithContext(c15WithDSeen(req.Context(), seen))
 	rec := httptest.NewRecorder()
 	e.ServeHTTP(rec, req)
-	ran = seen.ran
+	c15JudgeDecompress(skipper, d, wire, seen, rec.Code, &out)
+	return out, seen.ran
+}
 
+// c15JudgeDecompress: observation, model-free oracle and tags for one Decompress request
+func c15JudgeDecompress(skipper bool, d c15DReq, wire []byte, seen *c15DSeen, status int, out *c15Out) {
 	view := wJoin("B", wBytes(seen.data))
 	if d.Gzip && seen.ran && bytes.Equal(seen.data, wire) {
 		view = "U"
 	}
 	if !seen.ran {
-		out.obs = wJoin("0", "B", "s", wBool(rec.Code >= 500))
+		out.obs = wJoin("0", "B", "s", wBool(status >= 500))
 	} else {
 		out.obs = wJoin("1", view, wBool(seen.err != nil))
 	}
@@ -643,7 +906,18 @@ func c15ServeDecompress1(e c15Server, d c15DReq, sub func()) (out c15Out, ran bo
 	for _, m := range d.Members {
 		want = append(want, m...)
 	}
+	if d.Unknown {
+		out.tags = append(out.tags, "decompress:length-unknown(chunked)")
+	}
+	if d.Chunk > 0 {
+		out.tags = append(out.tags, "decompress:body-in-pieces")
+	}
 	switch {
+	case skipper && d.Skip:
+		out.tags = append(out.tags, "decompress:skipped-by-Skipper")
+		if !seen.ran || seen.err != nil || !bytes.Equal(seen.data, wire) {
+			fail("skipped request: the body must reach the handler untouched (ran=%v err=%v, %d of %d bytes)", seen.ran, seen.err, len(seen.data), len(wire))
+		}
 	case d.CE != "gzip":
 		out.tags = append(out.tags, "decompress:other-encoding")
 		if !seen.ran || seen.err != nil || !bytes.Equal(seen.data, wire) {
@@ -674,7 +948,6 @@ func c15ServeDecompress1(e c15Server, d c15DReq, sub func()) (out c15Out, ran bo
 			fail("a body that is not gzip, labelled gzip, was read without an error")
 		}
 	}
-	return out, ran
 }
 
 // ---------- context plumbing between the harness and the handlers ----------
@@ -687,16 +960,19 @@ const (
 )
 
 type c15Script struct {
-	tr  *c15Trace
-	ops []c15Op
+	tr *c15Trace
+	rq c15Req
+	mu *sync.Mutex // tcp mode: held by the handler while it runs, taken by the client side before it reads tr
 }
 
 type c15DSeen struct {
-	ran       bool
-	data      []byte
-	err       error
-	nestAfter int    // read this many bytes, then …
-	sub       func() // … serve the nested request (nil: none), then read the rest
+	mu            sync.Mutex // tcp mode: held by the handler while it runs
+	contentLength int64      // Request.ContentLength as the handler saw it (tcp mode)
+	ran           bool
+	data          []byte
+	err           error
+	nestAfter     int    // read this many bytes, then …
+	sub           func() // … serve the nested request (nil: none), then read the rest
 }
 
 // c15ReadBody is the Decompress handler's body: all of the request body, with the nested
@@ -727,8 +1003,8 @@ func c15ReadBody(body io.Reader, seen *c15DSeen) {
 	}
 }
 
-func c15WithTrace(ctx context.Context, tr *c15Trace, ops []c15Op) context.Context {
-	return context.WithValue(ctx, c15TraceKey, &c15Script{tr, ops})
+func c15WithTrace(ctx context.Context, tr *c15Trace, rq c15Req) context.Context {
+	return context.WithValue(ctx, c15TraceKey, &c15Script{tr: tr, rq: rq})
 }
 
 func c15WithDSeen(ctx context.Context, seen *c15DSeen) context.Context {
@@ -736,6 +1012,56 @@ func c15WithDSeen(ctx context.Context, seen *c15DSeen) context.Context {
 }
 
 // ---------- Run ----------
+
+func c15SkipHeader(ctx echo.Context) bool { return ctx.Request().Header.Get("X-Skip") == "1" }
+
+// c15ErrorHandler is the application's HTTPErrorHandler: like the default one it leaves a
+// committed response alone; otherwise status = the error's code, body = "E<code>".
+func c15ErrorHandler(err error, ctx echo.Context) {
+	if ctx.Response().Committed {
+		return
+	}
+	code := http.StatusInternalServerError
+	var he *echo.HTTPError
+	if errors.As(err, &he) {
+		code = he.Code
+	}
+	_ = ctx.String(code, fmt.Sprintf("E%d", code))
+}
+
+func c15GzipHandler(table func(id string) *c15Script) echo.HandlerFunc {
+	return func(ctx echo.Context) error {
+		var sc *c15Script
+		if id := ctx.Request().Header.Get("X-C15-Id"); id != "" && table != nil {
+			sc = table(id)
+		} else {
+			sc, _ = ctx.Request().Context().Value(c15TraceKey).(*c15Script)
+		}
+		if sc == nil {
+			return errors.New("c15: request without a script")
+		}
+		if sc.mu != nil {
+			sc.mu.Lock()
+			defer sc.mu.Unlock()
+		}
+		sc.tr.ran = true
+		if sc.rq.Preset {
+			ctx.Response().Header().Set(echo.HeaderContentEncoding, "gzip")
+		}
+		c15RunOps(ctx, sc.rq.Ops, sc.tr)
+		if sc.rq.Fail != 0 {
+			return echo.NewHTTPError(sc.rq.Fail)
+		}
+		return nil
+	}
+}
+
+func wSigned(n int) string {
+	if n < 0 {
+		return wJoin(wBool(true), wInt(-n))
+	}
+	return wJoin(wBool(false), wInt(n))
+}
 
 func c15Run(ci any) (res Result) {
 	c := ci.(*c15Case)
@@ -747,21 +1073,65 @@ func c15Run(ci any) (res Result) {
 	}()
 	e := echo.New()
 	e.HideBanner = true
+	e.HTTPErrorHandler = c15ErrorHandler
 	var outs []c15Out
 	var ops []string
+	tags := []string{"kind:" + c.Kind}
 	switch c.Kind {
 	case "gzip":
-		e.Use(middleware.GzipWithConfig(middleware.GzipConfig{MinLength: c.MinLength, Level: c.Level}))
-		e.GET("/", func(ctx echo.Context) error {
-			sc := ctx.Request().Context().Value(c15TraceKey).(*c15Script)
-			c15RunOps(ctx, sc.ops, sc.tr)
-			return nil
-		})
-		ops = []string{"G", wInt(c.MinLength), wInt(len(c.Reqs))}
+		env := &c15Env{e: e, base: c.Base}
+		var mw echo.MiddlewareFunc
+		if c.Ctor == "plain" {
+			mw = middleware.Gzip()
+			env.minLength, env.levelOK = 0, true
+			tags = append(tags, "ctor:Gzip()")
+			ops = []string{"G", wBool(true), wSigned(0), wSigned(0)}
+		} else {
+			cfg := middleware.GzipConfig{MinLength: c.MinLength, Level: c.Level}
+			if c.Skipper {
+				cfg.Skipper = c15SkipHeader
+				env.skipper = true
+				tags = append(tags, "config:Skipper")
+			}
+			mw = middleware.GzipWithConfig(cfg)
+			env.minLength = c.MinLength
+			if c.MinLength < 0 {
+				env.minLength = 0
+				tags = append(tags, "config:MinLength<0")
+			}
+			env.levelOK = c.Level >= gzip.HuffmanOnly && c.Level <= gzip.BestCompression
+			if !env.levelOK {
+				tags = append(tags, "config:invalid-level")
+			}
+			ops = []string{"G", wBool(false), wSigned(c.Level), wSigned(c.MinLength)}
+		}
+		if c.Base != "" {
+			tags = append(tags, "base-writer:"+c.Base)
+		}
+		e.Use(mw)
+		if c.Wire == "tcp" {
+			return c15RunGzipTCP(c, env, tags)
+		}
+		e.GET("/", c15GzipHandler(nil))
+		ops = append(ops, wInt(len(c.Reqs)))
 		reqLine := func(rq c15Req) {
-			ops = append(ops, wStr(rq.AE), wInt(len(rq.Ops)))
+			ops = append(ops, wBool(env.skipper && rq.Skip), wBool(rq.Preset))
+			if rq.Fail != 0 {
+				ops = append(ops, "1", wInt(rq.Fail))
+			} else {
+				ops = append(ops, "0")
+			}
+			n := 0
 			for _, op := range rq.Ops {
-				ops = append(ops, c15OpLine(op))
+				if c15IsModelOp(op) {
+					n++
+				}
+			}
+			ops = append(ops, wStr(rq.AE), wInt(n))
+			for _, op := range rq.Ops {
+				if c15IsModelOp(op) {
+					ops = append(ops, c15OpLine(op))
+				}
 			}
 		}
 		for _, rq := range c.Reqs {
@@ -769,7 +1139,17 @@ func c15Run(ci any) (res Result) {
 			if rq.Nested == nil {
 				ops = append(ops, "0")
 			} else {
-				ops = append(ops, "1", wInt(rq.NestAt))
+				// the position among the ops the model knows
+				at := 0
+				for i, op := range rq.Ops {
+					if i < rq.NestAt && c15IsModelOp(op) {
+						at++
+					}
+				}
+				if rq.NestAt >= len(rq.Ops) {
+					at = len(rq.Ops)
+				}
+				ops = append(ops, "1", wInt(at))
 				reqLine(*rq.Nested)
 			}
 		}
@@ -780,13 +1160,13 @@ func c15Run(ci any) (res Result) {
 				wg.Add(1)
 				go func(i int) {
 					defer wg.Done()
-					per[i] = c15ServeGzip(e, c.MinLength, c.Reqs[i])
+					per[i] = c15ServeGzip(env, c.Reqs[i])
 				}(i)
 			}
 			wg.Wait()
 		} else {
 			for i := range c.Reqs {
-				per[i] = c15ServeGzip(e, c.MinLength, c.Reqs[i])
+				per[i] = c15ServeGzip(env, c.Reqs[i])
 			}
 		}
 		for _, p := range per {
@@ -794,21 +1174,29 @@ func c15Run(ci any) (res Result) {
 		}
 	case "decompress":
 		handler := func(ctx echo.Context) error {
-			seen := ctx.Request().Context().Value(c15DSeenKey).(*c15DSeen)
+			seen, _ := ctx.Request().Context().Value(c15DSeenKey).(*c15DSeen)
+			if seen == nil {
+				return errors.New("c15: request without a record")
+			}
 			seen.ran = true
 			c15ReadBody(ctx.Request().Body, seen)
 			return ctx.NoContent(http.StatusOK)
 		}
+		mw, skipper := c15DecompressMw(c)
+		tags = append(tags, "ctor:"+c15DCtorName(c))
+		if c.Wire == "tcp" {
+			return c15RunDecompressTCP(c, e, mw, skipper, tags)
+		}
 		var srv c15Server = e
 		if c.Once {
-			srv = c15Once{e, middleware.Decompress()(handler)}
+			srv = c15Once{e, mw(handler)}
 		} else {
-			e.Use(middleware.Decompress())
+			e.Use(mw)
 			e.POST("/", handler)
 		}
 		ops = []string{"D", wInt(len(c.DReqs))}
 		reqLine := func(d c15DReq) {
-			ops = append(ops, wStr(d.CE))
+			ops = append(ops, wBool(skipper && d.Skip), wStr(d.CE))
 			if d.Gzip {
 				ops = append(ops, "Z", wInt(len(d.Members)))
 				for _, m := range d.Members {
@@ -835,13 +1223,13 @@ func c15Run(ci any) (res Result) {
 				wg.Add(1)
 				go func(i int) {
 					defer wg.Done()
-					per[i] = c15ServeDecompress(srv, c.DReqs[i])
+					per[i] = c15ServeDecompress(srv, skipper, c.DReqs[i])
 				}(i)
 			}
 			wg.Wait()
 		} else {
 			for i := range c.DReqs {
-				per[i] = c15ServeDecompress(srv, c.DReqs[i])
+				per[i] = c15ServeDecompress(srv, skipper, c.DReqs[i])
 			}
 		}
 		for _, p := range per {
@@ -850,8 +1238,6 @@ func c15Run(ci any) (res Result) {
 	default:
 		return Result{Oracle: "harness: unknown kind " + c.Kind}
 	}
-	obs := []string{wInt(len(outs))}
-	tags := []string{"kind:" + c.Kind}
 	if c.Kind == "decompress" {
 		if c.Once {
 			tags = append(tags, "decompress:constructor-applied-once(shared pool)")
@@ -859,7 +1245,12 @@ func c15Run(ci any) (res Result) {
 			tags = append(tags, "decompress:e.Use(pool per request)")
 		}
 	}
-	if c.Concurrent {
+	return c15Collect(strings.Join(ops, " "), outs, tags, c.Concurrent)
+}
+
+func c15Collect(opsLine string, outs []c15Out, tags []string, concurrent bool) Result {
+	obs := []string{wInt(len(outs))}
+	if concurrent {
 		tags = append(tags, "concurrent")
 	}
 	if len(outs) > 1 {
@@ -875,7 +1266,198 @@ func c15Run(ci any) (res Result) {
 		}
 		nontr = nontr || o.nontr
 	}
-	return Result{Ops: strings.Join(ops, " "), Obs: strings.Join(obs, " "), Oracle: oracle, Tags: tags, Nontrivial: nontr}
+	return Result{Ops: opsLine, Obs: strings.Join(obs, " "), Oracle: oracle, Tags: tags, Nontrivial: nontr}
+}
+
+func c15DCtorName(c *c15Case) string {
+	switch c.Ctor {
+	case "cfg0":
+		return "DecompressWithConfig{}"
+	case "cfgpool":
+		return "DecompressWithConfig{GzipDecompressPool}"
+	}
+	if c.Skipper {
+		return "DecompressWithConfig{Skipper}"
+	}
+	return "Decompress()"
+}
+
+func c15DecompressMw(c *c15Case) (echo.MiddlewareFunc, bool) {
+	cfg := middleware.DecompressConfig{}
+	if c.Ctor == "cfgpool" {
+		cfg.GzipDecompressPool = &middleware.DefaultGzipDecompressPool{}
+	}
+	if c.Skipper {
+		cfg.Skipper = c15SkipHeader
+	}
+	if c.Ctor == "" && !c.Skipper {
+		return middleware.Decompress(), false
+	}
+	return middleware.DecompressWithConfig(cfg), c.Skipper
+}
+
+// ---------- Run over a real connection (oracle only) ----------
+
+func c15Client(srv *httptest.Server) *http.Client {
+	tr := srv.Client().Transport.(*http.Transport).Clone()
+	tr.DisableCompression = true // the test wants to see the Content-Encoding itself
+	return &http.Client{Transport: tr, CheckRedirect: func(*http.Request, []*http.Request) error { return http.ErrUseLastResponse }}
+}
+
+// c15TCPOps: the program as it runs over a real connection — without the interface probes (a
+// real Hijack takes the connection away) and without a Content-Length that is not the true one
+// (net/http itself refuses to send such a response)
+func c15TCPOps(ops []c15Op, fails bool) []c15Op {
+	total := 0
+	for _, op := range ops {
+		total += len(op.Data)
+		for _, ch := range op.Chunks {
+			total += len(ch)
+		}
+	}
+	var out []c15Op
+	for _, op := range ops {
+		switch {
+		case !c15IsModelOp(op):
+		case op.K == "L" && (op.N != total || fails):
+			// (a handler that announces a length and then returns an error instead of the body has
+			// made the same promise it cannot keep)
+		default:
+			// statuses that forbid a body: net/http rejects the Write
+			if (op.K == "H" || op.K == "S" || op.K == "T") && (op.Code == 204 || op.Code == 304 || op.Code < 200) {
+				op.Code = 200
+			}
+			out = append(out, op)
+		}
+	}
+	return out
+}
+
+func c15RunGzipTCP(c *c15Case, env *c15Env, tags []string) Result {
+	var mu sync.Mutex
+	scripts := map[string]*c15Script{}
+	env.e.GET("/", c15GzipHandler(func(id string) *c15Script {
+		mu.Lock()
+		defer mu.Unlock()
+		return scripts[id]
+	}))
+	srv := httptest.NewServer(env.e)
+	defer srv.Close()
+	client := c15Client(srv)
+	defer client.CloseIdleConnections()
+	tags = append(tags, "wire:real-tcp-connection")
+	var outs []c15Out
+	for i, rq := range c.Reqs {
+		rq.Nested = nil
+		rq.Ops = c15TCPOps(rq.Ops, rq.Fail != 0)
+		if rq.Fail == 204 || rq.Fail == 304 {
+			rq.Fail = 404
+		}
+		var out c15Out
+		tr := &c15Trace{nestAt: -1, tcp: true}
+		id := strconv.Itoa(i)
+		hmu := &sync.Mutex{}
+		mu.Lock()
+		scripts[id] = &c15Script{tr: tr, rq: rq, mu: hmu}
+		mu.Unlock()
+		req, _ := http.NewRequest(http.MethodGet, srv.URL+"/", nil)
+		req.Header.Set("X-C15-Id", id)
+		if rq.AE != "" {
+			req.Header.Set(echo.HeaderAcceptEncoding, rq.AE)
+		}
+		if rq.Skip {
+			req.Header.Set("X-Skip", "1")
+		}
+		resp, err := client.Do(req)
+		if err != nil {
+			out.oracle = fmt.Sprintf("the client could not get a response: %v", err)
+			outs = append(outs, out)
+			continue
+		}
+		body, err := io.ReadAll(resp.Body)
+		resp.Body.Close()
+		if err != nil {
+			out.oracle = fmt.Sprintf("the client could not read the response body: %v (after %d bytes)", err, len(body))
+			outs = append(outs, out)
+			continue
+		}
+		w := c15Wire{status: resp.StatusCode, ce: resp.Header.Get(echo.HeaderContentEncoding), cl: resp.Header.Get(echo.HeaderContentLength), body: body}
+		out.obs = "tcp"
+		hmu.Lock() // the handler has returned (the response is complete): its trace is ours now
+		c15JudgeGzip(env, rq, tr, w, &out)
+		hmu.Unlock()
+		outs = append(outs, out)
+	}
+	return c15Collect("", outs, tags, false)
+}
+
+func c15RunDecompressTCP(c *c15Case, e *echo.Echo, mw echo.MiddlewareFunc, skipper bool, tags []string) Result {
+	var mu sync.Mutex
+	records := map[string]*c15DSeen{}
+	e.Use(mw)
+	e.POST("/", func(ctx echo.Context) error {
+		mu.Lock()
+		seen := records[ctx.Request().Header.Get("X-C15-Id")]
+		mu.Unlock()
+		if seen == nil {
+			return errors.New("c15: request without a record")
+		}
+		seen.mu.Lock()
+		defer seen.mu.Unlock()
+		seen.ran = true
+		seen.contentLength = ctx.Request().ContentLength
+		c15ReadBody(ctx.Request().Body, seen)
+		return ctx.NoContent(http.StatusOK)
+	})
+	srv := httptest.NewServer(e)
+	defer srv.Close()
+	client := c15Client(srv)
+	defer client.CloseIdleConnections()
+	tags = append(tags, "wire:real-tcp-connection", "decompress:e.Use(pool per request)")
+	var outs []c15Out
+	for i, d := range c.DReqs {
+		d.Nested = nil
+		var out c15Out
+		wire := c15DBody(d)
+		seen := &c15DSeen{}
+		id := strconv.Itoa(i)
+		mu.Lock()
+		records[id] = seen
+		mu.Unlock()
+		// a body whose type hides its length is sent with Transfer-Encoding: chunked
+		req, _ := http.NewRequest(http.MethodPost, srv.URL+"/", c15DRequestBody(d, wire))
+		if !d.Unknown {
+			req.ContentLength = int64(len(wire))
+			if len(wire) == 0 {
+				req.Body = http.NoBody
+			}
+		}
+		req.Header.Set("X-C15-Id", id)
+		if d.CE != "" {
+			req.Header.Set(echo.HeaderContentEncoding, d.CE)
+		}
+		if d.Skip {
+			req.Header.Set("X-Skip", "1")
+		}
+		resp, err := client.Do(req)
+		status := 0
+		if err == nil {
+			status = resp.StatusCode
+			io.Copy(io.Discard, resp.Body)
+			resp.Body.Close()
+		}
+		seen.mu.Lock() // the handler has returned
+		c15JudgeDecompress(skipper, d, wire, seen, status, &out)
+		if err != nil && out.oracle == "" {
+			out.oracle = fmt.Sprintf("the client could not get a response: %v", err)
+		}
+		if seen.ran && d.Unknown && seen.contentLength != -1 && out.oracle == "" {
+			out.oracle = fmt.Sprintf("harness: the upload was meant to be chunked but arrived with ContentLength %d", seen.contentLength)
+		}
+		seen.mu.Unlock()
+		outs = append(outs, out)
+	}
+	return c15Collect("", outs, tags, false)
 }
 
 // ---------- Gen ----------
@@ -936,11 +1518,13 @@ func c15GenProg(r *rand.Rand, m int, wide bool) []c15Op {
 		switch k := r.Intn(100); {
 		case k < 45:
 			ops = append(ops, c15Op{K: "W", Data: c15Data(r, c15Size(r, m, wide))})
-		case k < 65:
+		case k < 63:
 			ops = append(ops, c15Op{K: "F"})
-		case k < 80:
+		case k < 78:
 			ops = append(ops, c15Op{K: "H", Code: c15Codes[r.Intn(len(c15Codes))]})
-		case k < 93:
+		case k < 83:
+			ops = append(ops, c15Op{K: []string{"P", "J", "D"}[r.Intn(3)]})
+		case k < 94:
 			op := c15Op{K: "S", Code: c15Codes[r.Intn(len(c15Codes))]}
 			for j, nc := 0, r.Intn(4); j < nc; j++ {
 				sz := c15Size(r, m, false)
@@ -984,12 +1568,65 @@ func c15GenDReq(r *rand.Rand) c15DReq {
 	default:
 		d.Plain = c15Data(r, []int{1, 5, 9, 10, 11, 200}[r.Intn(6)])
 	}
+	// how the body arrives: length known or not (chunked upload), in one piece or in small ones
+	d.Unknown = r.Intn(3) == 0
+	if r.Intn(4) == 0 {
+		d.Chunk = []int{1, 2, 3, 17, 64, 512}[r.Intn(6)]
+	}
 	return d
+}
+
+var c15FailCodes = []int{400, 401, 404, 404, 500, 503, 302, 418}
+
+// c15GenReq: one request to the Gzip instance
+func c15GenReq(r *rand.Rand, m int, wide, skipper bool) c15Req {
+	rq := c15Req{AE: c15AEs[r.Intn(len(c15AEs))], Ops: c15GenProg(r, m, wide)}
+	if skipper && r.Intn(3) == 0 {
+		rq.Skip = true
+	}
+	// the handler returns an error: before it has started a response (the usual case: 404, 401 …)
+	// or after
+	if r.Intn(6) == 0 {
+		rq.Fail = c15FailCodes[r.Intn(len(c15FailCodes))]
+		if r.Intn(2) == 0 {
+			var hdrOnly []c15Op
+			for _, op := range rq.Ops {
+				if op.K == "L" || !c15IsModelOp(op) {
+					hdrOnly = append(hdrOnly, op)
+				}
+			}
+			rq.Ops = hdrOnly
+		}
+	}
+	// a handler that labels the response as gzip itself (pre-compressed content), mostly one that
+	// then sends no body (HEAD, 304, an error)
+	if r.Intn(25) == 0 {
+		rq.Preset = true
+		if r.Intn(4) != 0 {
+			var bodyless []c15Op
+			for _, op := range rq.Ops {
+				if op.K == "L" || op.K == "H" || !c15IsModelOp(op) {
+					bodyless = append(bodyless, op)
+				}
+			}
+			rq.Ops = bodyless
+		}
+	}
+	return rq
 }
 
 func c15GenCase(r *rand.Rand, tier string) *c15Case {
 	if r.Intn(8) == 0 {
 		c := &c15Case{Kind: "decompress", Concurrent: r.Intn(6) == 0, Once: r.Intn(3) != 0}
+		// every way of building the middleware
+		switch r.Intn(6) {
+		case 0:
+			c.Ctor = "cfg0"
+		case 1:
+			c.Ctor = "cfgpool"
+		case 2:
+			c.Skipper = true
+		}
 		// histories aimed at the pooled reader: a gzip-labelled request WITHOUT body (the path
 		// that leaves Reset early) or a rejected one first, then requests that are alive at
 		// the same time (a handler serving a nested request between its own reads)
@@ -1019,7 +1656,17 @@ func c15GenCase(r *rand.Rand, tier string) *c15Case {
 				}
 				d.NestAfter = []int{0, 1, total / 2, total, total + 5}[r.Intn(5)]
 			}
+			if c.Skipper && r.Intn(3) == 0 {
+				d.Skip = true
+			}
+			if c.Skipper && d.Nested != nil && r.Intn(3) == 0 {
+				d.Nested.Skip = true
+			}
 			c.DReqs = append(c.DReqs, d)
+		}
+		// a real server and a real client (chunked uploads as the transport produces them)
+		if r.Intn(10) == 0 {
+			c.Wire, c.Concurrent, c.Once = "tcp", false, false
 		}
 		return c
 	}
@@ -1033,15 +1680,36 @@ func c15GenCase(r *rand.Rand, tier string) *c15Case {
 	if wide && r.Intn(2) == 0 {
 		c.MinLength = 40000
 	}
+	// the other ways of building the middleware
+	switch k := r.Intn(40); {
+	case k < 3:
+		c.Ctor = "plain" // Gzip()
+	case k < 6:
+		c.MinLength = -1 - r.Intn(9) // "use the default"
+	case k < 7:
+		c.Level = []int{10, -3, 42}[r.Intn(3)] // gzip.NewWriterLevel refuses
+	}
+	c.Skipper = r.Intn(8) == 0
+	// what the underlying writer can do besides Write and Flush
+	c.Base = []string{"", "", "rf", "full"}[r.Intn(4)]
+	m := c.MinLength
+	if m < 0 || c.Ctor == "plain" {
+		m = 0
+	}
 	for i, n := 0, 1+r.Intn(5); i < n; i++ {
-		rq := c15Req{AE: c15AEs[r.Intn(len(c15AEs))], Ops: c15GenProg(r, c.MinLength, wide)}
+		rq := c15GenReq(r, m, wide, c.Skipper)
 		// two responses alive at the same time through the one instance: the handler serves
 		// another request between two of its own ops
 		if r.Intn(5) == 0 {
-			rq.Nested = &c15Req{AE: c15AEs[r.Intn(len(c15AEs))], Ops: c15GenProg(r, c.MinLength, false)}
+			n := c15GenReq(r, m, false, c.Skipper)
+			rq.Nested = &n
 			rq.NestAt = r.Intn(len(rq.Ops) + 2)
 		}
 		c.Reqs = append(c.Reqs, rq)
+	}
+	// a real server and a real client
+	if r.Intn(25) == 0 {
+		c.Wire, c.Concurrent, c.Base = "tcp", false, ""
 	}
 	return c
 }
@@ -1080,6 +1748,82 @@ func c15Shrink(ci any) []any {
 		d := *c
 		d.Once = false
 		out = append(out, &d)
+	}
+	if c.Ctor != "" {
+		d := *c
+		d.Ctor = ""
+		out = append(out, &d)
+	}
+	if c.Skipper {
+		d := *c
+		d.Skipper = false
+		out = append(out, &d)
+	}
+	if c.Base != "" {
+		d := *c
+		d.Base = ""
+		out = append(out, &d)
+		if c.Base == "full" {
+			d2 := *c
+			d2.Base = "rf"
+			out = append(out, &d2)
+		}
+	}
+	if c.Wire != "" {
+		d := *c
+		d.Wire = ""
+		out = append(out, &d)
+	}
+	if c.MinLength < 0 {
+		d := *c
+		d.MinLength = 0
+		out = append(out, &d)
+	}
+	for i, rq := range c.Reqs {
+		set := func(nr c15Req) {
+			d := *c
+			d.Reqs = append([]c15Req(nil), c.Reqs...)
+			d.Reqs[i] = nr
+			out = append(out, &d)
+		}
+		if rq.Skip {
+			nr := rq
+			nr.Skip = false
+			set(nr)
+		}
+		if rq.Preset {
+			nr := rq
+			nr.Preset = false
+			set(nr)
+		}
+		if rq.Fail != 0 {
+			nr := rq
+			nr.Fail = 0
+			set(nr)
+		}
+	}
+	for i, dq := range c.DReqs {
+		set := func(nd c15DReq) {
+			d := *c
+			d.DReqs = append([]c15DReq(nil), c.DReqs...)
+			d.DReqs[i] = nd
+			out = append(out, &d)
+		}
+		if dq.Skip {
+			nd := dq
+			nd.Skip = false
+			set(nd)
+		}
+		if dq.Unknown {
+			nd := dq
+			nd.Unknown = false
+			set(nd)
+		}
+		if dq.Chunk != 0 {
+			nd := dq
+			nd.Chunk = 0
+			set(nd)
+		}
 	}
 	for i := range c.Reqs {
 		if len(c.Reqs) > 1 {
@@ -1246,12 +1990,12 @@ func c15Shrink(ci any) []any {
 func init() {
 	register(&Prop{
 		ID:             "C15",
-		Rule:           "7 of 8 cases: sequences of 1-5 requests (1 in 6 cases: run concurrently) through ONE GzipWithConfig instance, MinLength in {0,1,10,1000} (thorough: also 2,100 and, rarely, 40000 with bodies beyond io.Copy's 32 KiB buffer), Level in {default,1,9,HuffmanOnly}, Accept-Encoding in {gzip, 'gzip, deflate, br', 'br, gzip', 'gzip;q=0', none, deflate, identity, *, x-gzip}; handler programs of 0-6 ops over {WriteHeader(code), Write(chunk), Flush, Stream(chunked reader), Stream(strings.Reader)} with chunk sizes {0,1,m-1,m,m+1,m/2,2m,random} around the threshold m, 1 in 6 preceded by an honest Content-Length set by the handler, 1 request in 5 serving a NESTED request (own program and Accept-Encoding) through the same Echo between two of its ops. 1 of 8 cases: 1-5 requests through ONE Decompress instance - for two thirds of the cases the constructor applied once to the handler (one reader pool for all requests), else e.Use + e.ServeHTTP - (a third of the cases start with gzip-labelled requests that have no body or a rejected one; a third of the requests serve a NESTED request through the same Echo between two reads of their own body) with Content-Encoding in {gzip, none, identity, deflate, br, GZIP, 'gzip, identity'} x body in {gzip of 1-2 members, damaged gzip (garbage after trailer / cut trailer / wrong checksum), empty, plain bytes of 1..200}. non-trivial = a gzip-accepted request whose switch to compression happens on a second or later write or is forced by Flush, or that ends below the threshold after >= 2 writes; or a well-formed gzip request body labelled gzip. distinct = distinct model op lines",
+		Rule:           "7 of 8 cases: sequences of 1-5 requests (1 in 6 cases: run concurrently) through ONE Gzip instance built by GzipWithConfig{MinLength in {0,1,10,1000} (thorough: also 2,100 and, rarely, 40000 with bodies beyond io.Copy's 32 KiB buffer), Level in {default,1,9,HuffmanOnly}} or - 3 in 40 each - by Gzip(), with a negative MinLength, or - 1 in 40 - with a level compress/gzip rejects; 1 case in 8 with a Skipper (a third of its requests are skipped); underlying http.ResponseWriter: recording writer without extras (half), + io.ReaderFrom, + ReaderFrom/Pusher/Hijacker/SetWriteDeadline (a quarter each); 1 case in 25 over a real net/http server and client (oracle only); Accept-Encoding in {gzip, 'gzip, deflate, br', 'br, gzip', 'gzip;q=0', none, deflate, identity, *, x-gzip}; handler programs of 0-6 ops over {WriteHeader(code), Write(chunk), Flush, Stream(chunked reader without WriteTo), Stream(strings.Reader), and - outside the model's program - Pusher.Push, Response.Hijack, ResponseController.SetWriteDeadline} with chunk sizes {0,1,m-1,m,m+1,m/2,2m,random} around the threshold m, 1 in 6 preceded by an honest Content-Length set by the handler, 1 in 6 RETURNING AN ERROR (half of those before anything was started), 1 in 25 setting Content-Encoding: gzip itself (mostly body-less), 1 request in 5 serving a NESTED request (own program and Accept-Encoding) through the same Echo between two of its ops. 1 of 8 cases: 1-5 requests through ONE Decompress instance built by Decompress() or DecompressWithConfig{} / {GzipDecompressPool} / {Skipper} - for two thirds of the cases the constructor applied once to the handler (one reader pool for all requests), else e.Use + e.ServeHTTP, 1 in 10 over a real server with real chunked uploads - (a third of the cases start with gzip-labelled requests that have no body or a rejected one; a third of the requests serve a NESTED request through the same Echo between two reads of their own body) with Content-Encoding in {gzip, none, identity, deflate, br, GZIP, 'gzip, identity'} x body in {gzip of 1-2 members, damaged gzip (garbage after trailer / cut trailer / wrong checksum), empty, plain bytes of 1..200} x length known or unknown (ContentLength -1, chunked) x delivered in one piece or in pieces of 1..512 bytes. non-trivial = a gzip-accepted request whose switch to compression happens on a second or later write or is forced by Flush, or that ends below the threshold after >= 2 writes; or a well-formed gzip request body labelled gzip. distinct = distinct model op lines",
 		New:            func() any { return &c15Case{} },
 		Gen:            c15Gen,
 		Run:            c15Run,
 		Shrink:         c15Shrink,
 		Known:          func(c any, res Result, modelObs string) string { return "" },
-		Correspondence: "C15.serveAll (GzipWithConfig + gzipResponseWriter + echo.Response + Context.Stream) and C15.decompressAll (Decompress) in lean/EchoModel/C15.lean vs the middleware driven through e.ServeHTTP with a recording http.ResponseWriter; wire bytes decoded with compress/gzip before comparison",
+		Correspondence: "C15.serveNestedAllX (Gzip / GzipWithConfig defaults + Skipper + gzipResponseWriter + echo.Response + Context.Stream + the error handler after the chain) and C15.decompressSeqX (Decompress / DecompressWithConfig + Skipper) in lean/EchoModel/C15.lean vs the middleware driven through e.ServeHTTP with a recording http.ResponseWriter (with and without io.ReaderFrom / Pusher / Hijacker); wire bytes decoded with compress/gzip before comparison",
 	})
 }
